@@ -72,6 +72,10 @@ func ZeroValueOf(typeExpr ast.Expr, typ types.Type) ast.Expr {
 		}
 
 	case *types.Slice, *types.Map, *types.Pointer, *types.Interface:
+		if endsWithFuncType(typeExpr) {
+			// []func()(nil) would be read as a slice of func() (nil).
+			typeExpr = &ast.ParenExpr{X: typeExpr}
+		}
 		return &ast.CallExpr{
 			Fun:  typeExpr,
 			Args: []ast.Expr{&ast.Ident{Name: "nil"}},
@@ -82,6 +86,21 @@ func ZeroValueOf(typeExpr ast.Expr, typ types.Type) ast.Expr {
 
 	default:
 		return nil
+	}
+}
+
+func endsWithFuncType(typeExpr ast.Expr) bool {
+	switch e := typeExpr.(type) {
+	case *ast.FuncType:
+		return true
+	case *ast.ArrayType:
+		return endsWithFuncType(e.Elt)
+	case *ast.MapType:
+		return endsWithFuncType(e.Value)
+	case *ast.ChanType:
+		return endsWithFuncType(e.Value)
+	default:
+		return false
 	}
 }
 
